@@ -222,11 +222,62 @@ def iter_term(g, order, dests):
     return "(%s, %s, %s)" % ('true' if g['numba'] else 'false', srcs, clist([("None" if d is None else "(Some %s)" % cnat(d)) for d in dests]))
 
 
+# ---- subnet dictionary (assign_subnet) observed inside real Linker runs ----
+SUBNET_IMPORTS = "From TP Require Import Model.SubnetMerge."
+SUBNET_FUNC = "check_subnets"
+SUBNET_CODES = {0: 'ok', 1: 'subnet dictionary built by Subnets.compute differs from the model of assign_subnet',
+                2: 'model of assign_subnet raised (impossible from reset() by C02_assign_subnet_total)'}
+
+
+class record_subnets:
+    """Harness-side wrapper (no change to /repo): while active, every Subnets.compute() inside trackpy logs the
+    (source index, dest index) pairs in the order assign_subnet is called and the dictionary it leaves."""
+    def __init__(self, log, cap):
+        self.log, self.cap = log, cap
+
+    def __enter__(self):
+        from trackpy.linking import subnet as sn
+        self.sn, self.orig = sn, sn.Subnets.compute
+        rec = self
+
+        def compute(subnets_obj):
+            if len(rec.log) >= rec.cap:
+                return rec.orig(subnets_obj)
+            sidx = {id(p): k for k, p in enumerate(subnets_obj.source_hash.points)}
+            didx = {id(p): k for k, p in enumerate(subnets_obj.dest_hash.points)}
+            calls = []
+            orig_assign = sn.assign_subnet
+
+            def assign(s, d, subnets):
+                calls.append((sidx[id(s)], didx[id(d)]))
+                return orig_assign(s, d, subnets)
+            sn.assign_subnet = assign
+            try:
+                rec.orig(subnets_obj)
+            finally:
+                sn.assign_subnet = orig_assign
+            part = [(sorted(sidx[id(p)] for p in S), sorted(didx[id(p)] for p in D)) for S, D in subnets_obj.subnets.values()]
+            part.sort(key=lambda v: v[1][0] if v[1] else -1)
+            if len(didx) < 60 and len(sidx) < 60:
+                rec.log.append(dict(nd=len(didx), edges=[list(e) for e in calls], subnets=[[a, b] for a, b in part]))
+        sn.Subnets.compute = compute
+        return self
+
+    def __exit__(self, *a):
+        self.sn.Subnets.compute = self.orig
+
+
+def subnet_term(e):
+    ln = lambda l: clist([cnat(x) for x in l])
+    return "(%s, %s, %s)" % (cnat(e['nd']), clist(["(%s, %s)" % (cnat(a), cnat(b)) for a, b in e['edges']]),
+                             clist(["(%s, %s)" % (ln(a), ln(b)) for a, b in e['subnets']]))
+
+
 def run(chk):
     common.quiet_trackpy()
     chk.coq()
     n = 150 if chk.tier == 'quick' else 5000
-    cases, terms, outs = [], [], []
+    cases, terms, outs, sublog = [], [], [], []
     for k in range(n):
         c = gen_case(chk.rng, chk.tier)
         if linkgen.max_inrange(c['frames'], c['sr'], c['memory']) > 10:
@@ -234,7 +285,8 @@ def run(chk):
             continue
         if numba_cap_binding(c):
             c['strategy'] = 'recursive'
-        out = linkgen.run_link_iter(c['frames'], c['sr'], memory=c['memory'], link_strategy=c['strategy'], max_size=c['max_size'])
+        with record_subnets(sublog, 400 if chk.tier == 'quick' else 6000):
+            out = linkgen.run_link_iter(c['frames'], c['sr'], memory=c['memory'], link_strategy=c['strategy'], max_size=c['max_size'])
         cases.append(c); outs.append(out); terms.append(case_term(c, out))
         chk.tally('strategy=' + c['strategy']); chk.tally('memory=%d' % c['memory'])
         if out and out[-1] is None:
@@ -252,6 +304,14 @@ def run(chk):
                           dict(kind='movie', code=r, case=jsonable(c, out)))
     if cases:
         chk.sample(jsonable(cases[0], outs[0]))
+    # subnet dictionaries observed during those runs
+    sres = common.coq_eval_lists(chk.work, SUBNET_IMPORTS, SUBNET_FUNC, [subnet_term(e) for e in sublog], tag='subnets')
+    for e, r in zip(sublog, sres):
+        merged = any(len(a) >= 2 for a, b in e['subnets'])
+        chk.count(('subnets', e), merged)
+        chk.tally('Subnets.compute observed' + (' (with a merged subnet)' if merged else ''))
+        if r != 0:
+            chk.violation('assign_subnet:%s' % SUBNET_CODES.get(r, r), SUBNET_CODES.get(r, r), dict(kind='subnets', code=r, case=e))
     # graph harness
     ng = 200 if chk.tier == 'quick' else 8000
     gterms, graphs = [], []
@@ -323,5 +383,12 @@ def replay(chk, path):
         print('replay: implementation assignment', a, 'monitor code', res[0])
         if res[0] != 0:
             chk.violation('subnet_linker:%s' % GRAPH_CODES.get(res[0]), GRAPH_CODES.get(res[0]), dict(kind='graph', code=res[0], graph=g))
+    elif r.get('kind') == 'subnets':
+        e = r['case']
+        res = common.coq_eval_lists(chk.work, SUBNET_IMPORTS, SUBNET_FUNC, [subnet_term(e)])
+        chk.count(('subnets', e), True)
+        print('replay: recorded Subnets.compute vs model: code', res[0], SUBNET_CODES.get(res[0]))
+        if res[0] != 0:
+            chk.violation('assign_subnet:%s' % SUBNET_CODES.get(res[0]), SUBNET_CODES.get(res[0]), dict(kind='subnets', code=res[0], case=e))
     else:
         print('replay: nothing executable in this replay file (proof/correspondence breakage): see its log field')
